@@ -180,26 +180,40 @@ def mk_list(row, ts_first=False):
 
 
 ENCODINGS = ["candle", "dict", "list", "candles", "dicts", "lists"]
+# further equivalent encodings of the same candle data that the library documents
+ENCODINGS_EXTRA = ["list_tsfirst", "lists_tsfirst", "dict_caps", "dicts_caps", "dict_iso", "dicts_iso"]
+_SINGLE = {"candle": "candles", "dict": "dicts", "list": "lists", "list_tsfirst": "lists_tsfirst",
+           "dict_caps": "dicts_caps", "dict_iso": "dicts_iso"}
+
+
+def _mk_dict_caps(row):
+    return {"Open": row[1], "High": row[2], "Low": row[3], "Close": row[4], "Volume": row[5],
+            "Timestamp": ts(row[0])}
+
+
+def _mk_dict_iso(row):
+    d = mk_dict(row)
+    d["timestamp"] = ts(row[0]).isoformat()
+    return d
 
 
 def encode(rows, enc):
     """Encode rows for append() in one of the accepted input forms.
-    Single-item encodings ('candle','dict','list') are only valid for exactly one row; callers
-    fall back to the list-of form otherwise."""
-    if enc in ("candle", "dict", "list") and len(rows) != 1:
-        enc = enc + "s"
-    if enc == "candle":
-        return mk_candle(rows[0])
-    if enc == "dict":
-        return mk_dict(rows[0])
-    if enc == "list":
-        return mk_list(rows[0])
-    if enc == "candles":
-        return mk_candles(rows)
-    if enc == "dicts":
-        return [mk_dict(r) for r in rows]
-    if enc == "lists":
-        return [mk_list(r) for r in rows]
+    Single-item encodings are only valid for exactly one row; otherwise the list-of form is used."""
+    if enc in _SINGLE and len(rows) != 1:
+        enc = _SINGLE[enc]
+    one = {
+        "candle": mk_candle, "dict": mk_dict, "list": mk_list,
+        "list_tsfirst": lambda r: mk_list(r, True), "dict_caps": _mk_dict_caps, "dict_iso": _mk_dict_iso,
+    }
+    if enc in one:
+        return one[enc](rows[0])
+    many = {
+        "candles": mk_candle, "dicts": mk_dict, "lists": mk_list,
+        "lists_tsfirst": lambda r: mk_list(r, True), "dicts_caps": _mk_dict_caps, "dicts_iso": _mk_dict_iso,
+    }
+    if enc in many:
+        return [many[enc](r) for r in rows]
     raise ValueError(enc)
 
 
